@@ -143,7 +143,10 @@ Fixpoint fz_handoff (t : fz_tree) (st : fz_state) (r : nat) (chain : list nat) :
       else match fz_par t fb, fz_lookup (fz_known st) (fz_rnd t fb) with
            | None, _ => (st, [])                                     (* GetLocalPreviousBlock = nil: return *)
            | _, None => (st, [])                                     (* round object missing: return *)
-           | Some _, Some _ =>
+           | Some _, Some ids =>
+               (* a block that is not marked notarized has to be fetched (GetNotarizedBlock); with
+                  nobody to fetch it from, finalizeRound returns *)
+               if negb (existsb (Nat.eqb fb) ids) then (st, []) else
                if fz_worker_accepts t st fb then
                  let st' := {| fz_lfb := fb; fz_known := fz_known st;
                                fz_finhash := fz_set (fz_finhash st) (fz_rnd t fb) fb |} in
